@@ -47,7 +47,15 @@ Specs are plain json-able data:
                       only: Pkey(name, length) * mul + add - the value the
                       same Pbind gave key `name` in this row; the column ends
                       after `length` rows or when the row has no such key)
-  pattern  := ['pbind', {key: valspec}]
+  keyset   := 'name,name[,name]' | 'name,'   (a mapping key of a Pbind / Pmono
+              that stands for the TUPLE of these names - Pbind help: "the key
+              can be an array of keys, the value stream then returns an array
+              of values" - its column yields one row per event)
+  row      := {'row': [value...], 'as': 'list' | 'tuple'}   (the value of a
+              keyset: value j goes to name j; values beyond the names are
+              ignored; FEWER values than names: not decided, never part of an
+              expectation - SuperCollider ends the stream there)
+  pattern  := ['pbind', {key | keyset: valspec}]
             | ['pmono', instrument, {key: valspec}]
             | ['pmono_artic', instrument, {key: valspec}]
             | ['ppar', [pattern...]] | ['pchain', pbind, pattern]
@@ -344,12 +352,17 @@ def _embed(item):
 
 class Ev:
     """One event of a stream: explicit keys, kind and (for mono) node slot."""
-    __slots__ = ('keys', 'kind', 'mono', 'delta', 'based')
+    __slots__ = ('keys', 'kind', 'mono', 'delta', 'based', 'sched')
 
-    def __init__(self, keys, kind='note', mono=None, delta=None, based=False):
+    def __init__(self, keys, kind='note', mono=None, delta=None, based=False,
+                 sched=None):
         self.keys, self.kind, self.mono = keys, kind, mono
         self.based = based      # its input event came from a Pevent
         self.delta = resolve(keys).delta if delta is None else delta
+        # articulated mono lines: the note that ends a slur sends the release
+        # of its node `sched` seconds after it is played (whatever happens to
+        # the stream afterwards: a Pdur cut, a stop)
+        self.sched = sched
 
     @property
     def rest(self):
@@ -387,16 +400,45 @@ def _is_key_column(v):
     return isinstance(v, (list, tuple)) and len(v) > 0 and v[0] == 'key'
 
 
-def _bind_events(mapping):
+def is_keyset(k):
+    """A mapping key that stands for a tuple of keys ('degree,dur', 'amp,')."""
+    return isinstance(k, str) and ',' in k
+
+
+def keyset_names(k):
+    return [n for n in k.split(',') if n]
+
+
+def keyset_key(names):
+    return ','.join(names) + (',' if len(names) == 1 else '')
+
+
+def is_row_value(v):
+    return isinstance(v, dict) and 'row' in v
+
+
+def mapping_names(mapping):
+    """The event keys a Pbind mapping assigns (key sets written out)."""
+    out = []
+    for k in mapping:
+        out += keyset_names(k) if is_keyset(k) else [k]
+    return out
+
+
+def _bind_events(mapping, limit=None):
     """Rows of a Pbind.  Columns are asked in the order of the mapping (Pbind
     help: 'the keys are processed in order, so that a later key can use the
     value of an earlier one' - Pkey); the first column that ends ends the
-    pattern."""
+    pattern.  A key set spreads the row its column yields over its names, the
+    values beyond the names are dropped.  limit: at most so many rows (needed
+    for a mapping of constants, which is endless)."""
     cols = {k: (None if _is_key_column(v) else values(v))
             for k, v in mapping.items()}
     finite = [len(v) for v in cols.values() if v is not None]
     keycols = {k: v for k, v in mapping.items() if _is_key_column(v)}
     finite += [v[2] for v in keycols.values() if v[2] is not None]
+    if limit is not None:
+        finite.append(limit)
     if not finite:
         raise ValueError('endless Pbind')
     n = min(finite)
@@ -415,8 +457,17 @@ def _bind_events(mapping):
                     row[k] = {'rest': src['rest'] * mul + add}
                 else:
                     row[k] = src * mul + add
+                continue
+            val = mapping[k] if v is None else v[i]
+            if is_keyset(k):
+                names = keyset_names(k)
+                if not is_row_value(val) or len(val['row']) < len(names):
+                    raise ValueError('key set with fewer values than keys: '
+                                     'not decided')
+                for name, x in zip(names, val['row']):
+                    row[name] = x
             else:
-                row[k] = mapping[k] if v is None else v[i]
+                row[k] = val
         out.append(row)
     return out
 
@@ -484,6 +535,7 @@ def timeline(p):
                 e = Ev(keys, 'mono_set', (voice, p[1]))
                 if not slur:
                     rel.append((t + r.sustain, voice, True))
+                    e.sched = r.sustain
                     voice = None
             items.append((t, e))
             t += e.delta
@@ -520,7 +572,7 @@ def timeline(p):
             keys['delta'] = ({'rest': remaining}
                              if delta_is_rest(e.keys) else remaining)
             items[-1] = (t, Ev(keys, e.kind, e.mono, delta=remaining,
-                                based=e.based))
+                                based=e.based, sched=e.sched))
         alive = {e.mono[0] for t, e in items if e.mono}
         rel = []
         for t, m, x in tl.releases:
@@ -561,25 +613,26 @@ def timeline(p):
     if kind == 'pchain':
         a, b = p[1], p[2]
         tb = timeline(b)
-        cols = {k: values(v) for k, v in a[1].items()}
-        constant = all(v is None for v in cols.values())
+        constant = all(values(v) is None for v in a[1].values())
         if not constant and not tb.sequential:
             raise ValueError('Pchain over a parallel stream needs a constant '
                              'left operand (stream order is not modelled)')
-        finite = [len(v) for v in cols.values() if v is not None]
-        n = min(finite + [len(tb.items)])
+        # rows of the left operand (key sets written out); None: constants
+        rows = None if constant else _bind_events(a[1])
+        const = _bind_events(a[1], limit=1)[0] if constant else None
+        n = len(tb.items) if rows is None else min(len(rows), len(tb.items))
         items, t = [], None
         if tb.sequential:
             t = 0.0
             for i in range(n):
                 _, e = tb.items[i]
                 keys = dict(e.keys)
-                keys.update({k: (a[1][k] if v is None else v[i])
-                             for k, v in cols.items()})
+                keys.update(const if rows is None else rows[i])
                 if e.kind == 'silent':
                     ne = Ev(keys, 'silent', delta=e.delta, based=e.based)
                 else:
-                    ne = Ev(keys, e.kind, e.mono, based=e.based)
+                    ne = Ev(keys, e.kind, e.mono, based=e.based,
+                            sched=e.sched)
                 items.append((t, ne))
                 t += ne.delta
             rel = tb.releases
@@ -587,14 +640,14 @@ def timeline(p):
                 # the chained line is still a mono line (event types are kept);
                 # its end-of-stream release happens where the chain ends: at
                 # once when the Pmono is exhausted first, else by the player
-                exact = not finite or len(tb.items) <= min(finite)
+                exact = rows is None or len(tb.items) <= len(rows)
                 rel = [(t, m, exact) for _, m, _x in tb.releases]
             return Timeline(items, t, rel, True, tb.flags)
         for t0, e in tb.items:
             keys = dict(e.keys)
-            keys.update(a[1])
+            keys.update(const)
             items.append((t0, Ev(keys, e.kind, e.mono, delta=e.delta,
-                                 based=e.based)))
+                                 based=e.based, sched=e.sched)))
         return Timeline(items, tb.total, tb.releases, False, tb.flags)
     if kind == 'pevent':
         # Pevent(pattern, event): the pattern is asked with `event` as its
@@ -610,7 +663,7 @@ def timeline(p):
             keys = dict(p[1])
             keys.update(e.keys)
             items.append((t0, Ev(keys, e.kind, e.mono, delta=e.delta,
-                                 based=True)))
+                                 based=True, sched=e.sched)))
         return Timeline(items, tl.total, tl.releases, tl.sequential, tl.flags)
     if kind in ('pseq', 'pn'):
         # embedding in place: the parts one after the other, each one a fresh
@@ -688,9 +741,17 @@ class Controlled:
         self.plays, self.ended, self.last = [], None, 0.0
         self.runs = 1           # times the stream was (re)started
         self.effect = {}        # action name -> times it changed something
+        # sequential timelines only (mono voices need them):
+        self.marks = []         # (run, index of the element) of each play
+        self.wakes = {}         # (run, index) -> time the player asked its
+        #                         stream for this element (index n: the end)
+        self.cuts = {}          # run -> (time, call) that ended the run
+        self.deaths = {}        # run -> time its failing element was played
+        self.repair_before = None   # index of the call before which the
+        #                             failing element is repaired
 
 
-def controlled(tl, at, actions, probe=None):
+def controlled(tl, at, actions, probe=None, dies=None):
     """Player started at `at` over timeline `tl`, then `actions`
     [{'at': absolute time, 'do': name}] in time order:
 
@@ -705,15 +766,21 @@ def controlled(tl, at, actions, probe=None):
       reset-play      reset() immediately followed by play() (also:
                       play(reset=True)): the stream starts again NOW -
                       whatever the player was doing (playing, paused, stopped,
-                      ended)
+                      ended, dead)
       stop            the player ends (only followed by reset-play)
+
+    dies: {'idx': k, 'repair': bool} - element k of the stream FAILS when it
+    is played (round 9): the player is dead from then on (state 'dead': no
+    further wake-up is decided; only stop / reset-play / play-reset follow);
+    with `repair` the pattern is repaired just before the first restart that
+    follows the first death (Controlled.repair_before), later runs play it.
 
     Pause / resume / reset need the wake-up times of the stream: sequential
     timelines only (every stream element is an item).  Mute / unmute alone
     work on any timeline.  None when an action coincides with a wake-up (the
     order of the two is not decided; the generators avoid it).
-    probe: only the state ('playing' | 'paused' | 'stopped' | 'ended') of the
-    player at time `probe` (after all actions) is wanted."""
+    probe: only the state ('playing' | 'paused' | 'stopped' | 'ended' |
+    'dead') of the player at time `probe` (after all actions) is wanted."""
     out = Controlled()
     only_mute = all(a['do'] in ('mute', 'unmute') for a in actions)
     if not tl.sequential and not only_mute:
@@ -743,14 +810,23 @@ def controlled(tl, at, actions, probe=None):
     n = len(els)
     state, idx, wake, muted = 'playing', 0, at, False
     last = at
-    for a in list(actions) + [{'at': INF if probe is None else probe,
-                               'do': 'end'}]:
+    run, repaired = 0, False
+    for j, a in enumerate(list(actions) + [
+            {'at': INF if probe is None else probe, 'do': 'end'}]):
         while state == 'playing' and wake < a['at']:
             last = max(last, wake)
+            out.wakes[(run, idx)] = wake
             if idx == n:
                 state, out.ended = 'ended', wake
                 break
+            if dies and idx == dies['idx'] and not repaired \
+                    and not els[idx].rest and not muted:
+                # the element fails while it is played: the player is dead
+                state = 'dead'
+                out.deaths[run] = wake
+                break
             out.plays.append((wake, els[idx], muted))
+            out.marks.append((run, idx))
             wake += deltas[idx]
             idx += 1
         if a['do'] == 'end':
@@ -770,23 +846,98 @@ def controlled(tl, at, actions, probe=None):
         elif do in ('resume', 'play'):
             if state == 'paused':
                 state, wake, hit = 'playing', a['at'], True
+            elif state == 'dead':
+                raise ValueError(f'{do}: not decided for a dead player')
         elif do == 'reset':
             if state != 'playing':
                 raise ValueError('reset alone: playing players only')
             idx, hit = 0, True
+            out.cuts[run] = (a['at'], do)
+            run += 1
             out.runs += 1
             out.ended = None
         elif do in ('reset-play', 'play-reset'):
+            if dies and dies.get('repair') and out.deaths and not repaired:
+                repaired, out.repair_before = True, j
             state, idx, wake, hit = 'playing', 0, a['at'], True
+            out.cuts.setdefault(run, (a['at'], do))
+            run += 1
             out.runs += 1
             out.ended = None
         elif do == 'stop':
-            if state in ('playing', 'paused'):
+            if state in ('playing', 'paused', 'dead'):
                 state, hit = 'stopped', True
+                out.cuts[run] = (a['at'], do)
         else:
             raise ValueError(do)
         if hit:
             out.effect[do] = out.effect.get(do, 0) + 1
     out.last = last
     out.state = state
+    return out
+
+
+def controlled_voices(tl, c):
+    """Releases of the mono voices (Pmono / PmonoArtic nodes) a player
+    creates under the control history `c` = controlled(tl, ...), tl
+    sequential: [(run, voice, time, exact, by)] - EVERY node that is created
+    is released exactly once:
+
+      by its own pattern       at the wake-up at which its Pmono ends (the
+                               element after its last one is asked for), or
+                               - articulated - `sustain` after the note that
+                               ends the slur was played (Ev.sched: sent with
+                               that note, so neither a Pdur cut nor a stop
+                               or reset that comes later changes it); exact
+      stop                     at the stop (the player's clean-up); exact
+      reset / reset-play /     not before that call (this library releases the
+      play-reset               node at the call; the statement is silent)
+      after a failing element  not before the failure (released by whatever
+                               call comes next: stop, reset-play ...; when
+                               no call follows, the node may stay)
+      cut by a Pdur            not before the wake-up at which the Pdur ends
+
+    A voice exists in a run when the element that creates it (the first of
+    its line that is no rest) was played in that run."""
+    els = [e for _, e in tl.items]
+    onsets = [t for t, _ in tl.items] + [tl.total]
+    played = {m: t for m, (t, _e, muted) in zip(c.marks, c.plays)
+              if not muted}
+    lines = {}
+    for i, e in enumerate(els):
+        if e.mono:
+            lines.setdefault(e.mono[0], []).append(i)
+    out = []
+    for run in range(c.runs):
+        for mid, idxs in lines.items():
+            first = next((i for i in idxs if not els[i].rest), None)
+            if first is None or (run, first) not in played:
+                continue
+            rel = next(((t, x) for t, m, x in tl.releases if m == mid), None)
+            if rel is None:
+                raise ValueError('voice without a release')
+            t_rel, exact = rel
+            lst = idxs[-1]
+            if els[lst].sched is not None:
+                # sent when the note that ends the slur is played (no Pdur
+                # cut, stop or reset that comes later takes it back)
+                if (run, lst) in played:
+                    out.append((run, mid, played[(run, lst)]
+                                + els[lst].sched, True, 'scheduled'))
+                    continue
+            elif (run, lst + 1) in c.wakes:
+                out.append((run, mid, c.wakes[(run, lst + 1)], exact,
+                            'end-of-pattern' if exact else 'pdur-cut'))
+                continue
+            if run in c.deaths:
+                # (no call after the failure: nobody releases the node -
+                # `by` 'nothing-...': at most one release)
+                out.append((run, mid, c.deaths[run], False,
+                            'call-after-failed-event' if run in c.cuts
+                            else 'nothing-after-failed-event'))
+            elif run in c.cuts:
+                t, do = c.cuts[run]
+                out.append((run, mid, t, do == 'stop', do))
+            else:
+                raise ValueError('a run that neither ends nor is cut')
     return out
